@@ -41,8 +41,8 @@ const c43Local = "node-0"
 type c43SeqConfig struct{}
 
 func (c43SeqConfig) UpdateFrom(map[string]string, config.Source) (bool, error) { return false, nil }
-func (c43SeqConfig) RawValues() map[string]string                             { return map[string]string{} }
-func (c43SeqConfig) ToConfigUpdate() *felixproto.ConfigUpdate                 { return &felixproto.ConfigUpdate{} }
+func (c43SeqConfig) RawValues() map[string]string                              { return map[string]string{} }
+func (c43SeqConfig) ToConfigUpdate() *felixproto.ConfigUpdate                  { return &felixproto.ConfigUpdate{} }
 
 type c43Pipe struct {
 	cg     *calc.CalcGraph
@@ -98,9 +98,12 @@ func (p *c43Pipe) flush() {
 // Datastore model.
 
 type c43Node struct {
-	Subnet int  // 0 or 1
-	NoAddr bool // node resource without any address
+	Subnet int   // 0 or 1
+	NoAddr bool  // node resource without any address
+	Only   uint8 // 0: addresses of both families; 4 / 6: only that family
 }
+
+func (n c43Node) has(v uint8) bool { return !n.NoAddr && (n.Only == 0 || n.Only == v) }
 
 type c43Pool struct {
 	Mode string // ipip-always | ipip-cross | vxlan-always | vxlan-cross | none
@@ -180,7 +183,13 @@ func (w *c43World) nodeUpdate(k int) api.Update {
 	if !n.NoAddr {
 		_, c4 := w.nodeAddr(k, 4)
 		_, c6 := w.nodeAddr(k, 6)
-		node.Spec.BGP = &internalapi.NodeBGPSpec{IPv4Address: c4, IPv6Address: c6}
+		node.Spec.BGP = &internalapi.NodeBGPSpec{}
+		if n.has(4) {
+			node.Spec.BGP.IPv4Address = c4
+		}
+		if n.has(6) {
+			node.Spec.BGP.IPv6Address = c6
+		}
 	}
 	return api.Update{KVPair: model.KVPair{Key: key, Value: node}, UpdateType: api.UpdateTypeKVUpdated}
 }
@@ -265,9 +274,10 @@ type c43Want struct {
 	LocalWorkload bool
 }
 
+// known: node k exists and has an address of the family under test.
 func (w *c43World) known(k int) bool {
 	n, ok := w.Nodes[k]
-	return ok && !n.NoAddr
+	return ok && n.has(w.V)
 }
 
 // fill sets the pool- and node-derived fields of the statement.
@@ -347,7 +357,7 @@ func (w *c43World) describe() string {
 	for k := 0; k < 4; k++ {
 		if n, ok := w.Nodes[k]; ok {
 			ip, cidr := w.nodeAddr(k, w.V)
-			if n.NoAddr {
+			if !n.has(w.V) {
 				ip, cidr = "-", "-"
 			}
 			fmt.Fprintf(&sb, "\n   node-%d addr=%s net=%s", k, ip, cidr)
@@ -475,7 +485,7 @@ func c43DiffRoutes(a, b map[string]*felixproto.RouteUpdate) string {
 func TestVerifC43Resolver(t *testing.T) {
 	ev.Quiet()
 	rec := ev.New("C43", "resolver",
-		"histories of Node (4 nodes; subnet A/B or no address), IPPool (3 pools; IPIP/VXLAN Always/CrossSubnet or no encap; NAT on/off), IPAM block (2 per pool; affinity to any node or none; up to 3 allocations held by any node = borrowed IPs) and local workload endpoint updates/deletions, IPv4 or IPv6, flushes at arbitrary points; each case starts with a populated cluster delivered in a random permutation, followed by changes; non-trivial = final state has a remote block or borrowed address inside a pool AND the history re-ordered or changed something (a node/pool/block was updated or deleted after first being set, or a block arrived before its pool, its owner node or the local node); distinct = distinct op sequence",
+		"histories of Node (4 nodes; subnet A/B, both families / one family / no address), IPPool (3 pools; IPIP/VXLAN Always/CrossSubnet or no encap; NAT on/off), IPAM block (2 per pool; affinity to any node or none; up to 3 allocations held by any node = borrowed IPs) and local workload endpoint updates/deletions, IPv4 or IPv6, flushes at arbitrary points; each case starts with a populated cluster delivered in a random permutation, followed by changes; non-trivial = final state has a remote block or borrowed address inside a pool AND the history re-ordered or changed something (a node/pool/block was updated or deleted after first being set, or a block arrived before its pool, its owner node or the local node); distinct = distinct op sequence",
 		"pools are disjoint, node addresses lie outside all pools, one allocation per address (datastore invariants)",
 		"only local workload endpoints are generated (RouteSource=CalicoIPAM registers the resolver for local endpoints only)",
 		"a live local workload's address is always allocated to the local node in an existing block (workloads are deleted before their address is released); without this the resolver's /32 flags depend on arrival order, see report")
@@ -506,7 +516,8 @@ func TestVerifC43Resolver(t *testing.T) {
 			}
 		}
 		drawNode := func() c43Node {
-			return c43Node{Subnet: rapid.SampledFrom([]int{0, 0, 1}).Draw(t, "subnet"), NoAddr: rapid.IntRange(0, 7).Draw(t, "noAddr") == 0}
+			return c43Node{Subnet: rapid.SampledFrom([]int{0, 0, 1}).Draw(t, "subnet"), NoAddr: rapid.IntRange(0, 7).Draw(t, "noAddr") == 0,
+				Only: rapid.SampledFrom([]uint8{0, 0, 0, 0, 4, 6}).Draw(t, "onlyFamily")}
 		}
 		drawPool := func() c43Pool {
 			return c43Pool{
